@@ -58,15 +58,13 @@ set_option linter.unusedSimpArgs false
 
 theorem gt_val' {n : Nat} {a x : List Nat} (ha : Wf n a) (hx : Wf n x) : gt a x = decide (val x < val a) := by
   simp only [gt, gtDef, evalCmpDef, primCmp, le_val' ha hx, lt_val' ha hx, lt_val' hx ha, le_val' hx ha]
-  rw [Bool.eq_iff_iff]
-  simp
-  try omega
+  all_goals (rw [Bool.eq_iff_iff]; simp)
+  all_goals omega
 
 theorem ge_val' {n : Nat} {a x : List Nat} (ha : Wf n a) (hx : Wf n x) : ge a x = decide (val x ≤ val a) := by
   simp only [ge, geDef, evalCmpDef, primCmp, le_val' ha hx, lt_val' ha hx, lt_val' hx ha, le_val' hx ha]
-  rw [Bool.eq_iff_iff]
-  simp
-  try omega
+  all_goals (rw [Bool.eq_iff_iff]; simp)
+  all_goals omega
 
 /-- the `!=` scan finds a differing digit iff the digit lists differ -/
 theorem ne_eq_decide : ∀ (a x : List Nat), a.length = x.length → ne a x = decide (a ≠ x)
@@ -90,8 +88,7 @@ theorem ne_val' {n : Nat} {a x : List Nat} (ha : Wf n a) (hx : Wf n x) : ne a x 
 
 theorem eq_val' {n : Nat} {a x : List Nat} (ha : Wf n a) (hx : Wf n x) : eq a x = decide (val a = val x) := by
   simp only [eq, eqDef, evalCmpDef, primCmp, ne_val' ha hx, ne_val' hx ha]
-  rw [Bool.eq_iff_iff]
-  simp
-  try omega
+  all_goals (rw [Bool.eq_iff_iff]; simp)
+  all_goals omega
 
 end DV.C10
